@@ -73,7 +73,7 @@ def reaches_real(case):
 def run(tier, seed):
     t0 = time.time()
     rng = random.Random(seed)
-    obligations = C.proof_obligations("C16", MODULE, THEOREMS)
+    obligations = C.proof_obligations("C16", MODULE, THEOREMS) + C.inventory_obligation()
     cases = [gen_case(rng) for _ in range(200 if tier == "quick" else 1200)]
     impl, model = D.both(CRATE, cases)
     for c, m in zip(cases, model):
